@@ -31,10 +31,11 @@ def checkHashProg (kvs okv : List (String × String)) : String := Id.run do
   let wantNeg := want.map fun h => (1 + P - h) % P
   for (k, what) in [("hb1", "BDD under the first order"), ("hb2", "BDD under the second order"),
       ("hs1", "compressed SDD under the first vtree"), ("hs2", "uncompressed SDD under the second vtree"),
-      ("cb", "cached BDD hash"), ("cs", "cached SDD hash"), ("semh", "node of the semantic-hash builder")] do
+      ("cb", "cached BDD hash"), ("cs", "cached SDD hash"), ("csm", "smoothed BDD (cached)"), ("hsm", "smoothed BDD (recomputed)"),
+      ("semh", "node of the semantic-hash builder")] do
     let some got := (lookup okv k).bind parseNatList | return s!"FAIL PARSE {k}"
     if got != want then return s!"FAIL SPEC the semantic hash of the {what} is {got}, the weighted sum of the function is {want}"
-  for k in ["hneg", "hsneg"] do
+  for k in ["hneg", "hsneg", "csmneg"] do
     let some got := (lookup okv k).bind parseNatList | return s!"FAIL PARSE {k}"
     if got != wantNeg then return s!"FAIL SPEC the hash of a negation {got} is not one minus the hash {wantNeg}"
   -- the semantic-hash builder
